@@ -190,4 +190,43 @@ def lsResult (A : List Nat) (g : List Node) (orders : List (List Nat)) (start : 
   let a := lsRun A g orders start
   (a, evalGraph A a g)
 
+/-! ## ReusingIterativeLocalSearch::operator() and MaxPlus::operator(): bookkeeping of (best action, its value)
+
+Both keep a current best `(action, value)` and replace it when a candidate evaluates strictly better.  Where the
+candidates come from (random restarts / perturbations run through LocalSearch; arg-max of the message sums) is an INPUT
+of the model, so the theorems hold for every outcome of the random engine and of the message passing. -/
+
+/-- RILS trial loop: `starts` are the `newAction_` of the successive trials (restart or perturbation), each run through
+    LocalSearch with its own shuffle outcomes; `if (action_ == newAction_) continue;`, keep on strict improvement -/
+def rilsTrials (A : List Nat) (g : List Node) : List (List Nat × List (List Nat)) → List Nat × Rat → List Nat × Rat
+  | [], st => st
+  | (s, orders) :: ts, st =>
+    if s == st.1 then rilsTrials A g ts st else
+    let r := lsResult A g orders s
+    rilsTrials A g ts (if st.2 < r.2 then r else st)
+
+/-- `forceResetAction_ || action_.empty()` → LocalSearch from a random start; else reuse `action_`, value recomputed -/
+def rilsRun (A : List Nat) (g : List Node) (reuse : Option (List Nat)) (first : List Nat × List (List Nat))
+    (trials : List (List Nat × List (List Nat))) : List Nat × Rat :=
+  let init := match reuse with
+    | some a => (a, evalGraph A a g)
+    | none => lsResult A g first.2 first.1
+  rilsTrials A g trials init
+
+/-- MaxPlus bookkeeping: `cands` are the `cAction` of the successive iterations; `none` = `lowest()` marker -/
+def mpTrack (A : List Nat) (g : List Node) : List (List Nat) → List Nat × Option Rat → List Nat × Option Rat
+  | [], st => st
+  | c :: cs, st =>
+    if c == st.1 then mpTrack A g cs st else
+    let cv := evalGraph A c g
+    match st.2 with
+    | none => mpTrack A g cs (c, some cv)
+    | some rv => mpTrack A g cs (if rv < cv then (c, some cv) else st)
+
+def mpRun (A : List Nat) (g : List Node) (cands : List (List Nat)) : List Nat × Rat :=
+  let r := mpTrack A g cands (List.replicate A.length 0, none)
+  match r.2 with
+  | some v => (r.1, v)
+  | none => (r.1, evalGraph A r.1 g)
+
 end AITB.VE
